@@ -1,6 +1,6 @@
 (* Lemmas behind Props/C15.v: Publish never blocks, buffers absorb and keep, callbacks exactly once,
    own timeout, no leaked delivery goroutine. *)
-From Coq Require Import List Arith Bool Lia.
+From Coq Require Import List Arith Bool Lia ZArith Permutation.
 From TC.Model Require Import Pub.
 From TC.Lib Require Import ListAux.
 From TC.Proofs Require Import PubInv PubC06.
@@ -237,6 +237,23 @@ Section PubC15.
       - unfold pair_dl. simpl. rewrite E. auto.
       - apply in_prod; apply in_seq; lia. }
     lia.
+  Qed.
+
+  (* ---------- the order of the Subscribe options does not matter ---------- *)
+  Lemma apply_opt_comm (c : scfg M) (a b : sopt M) :
+    okind a <> okind b -> apply_opt (apply_opt c a) b = apply_opt (apply_opt c b) a.
+  Proof. destruct a, b; simpl; intros H; try reflexivity; exfalso; apply H; reflexivity. Qed.
+
+  Lemma opts_perm (l1 l2 : list (sopt M)) :
+    Permutation l1 l2 -> NoDup (map okind l1) ->
+    forall c, fold_left apply_opt l1 c = fold_left apply_opt l2 c.
+  Proof.
+    induction 1; intros N c; simpl; auto.
+    - inversion N; subst. apply IHPermutation; auto.
+    - inversion N as [|? ? Hy N']; subst. rewrite apply_opt_comm; auto.
+      intro E. apply Hy. simpl. left. symmetry. exact E.
+    - rewrite IHPermutation1; auto. apply IHPermutation2.
+      eapply Permutation_NoDup; [apply Permutation_map; eassumption | assumption].
   Qed.
 
 End PubC15.
